@@ -117,6 +117,10 @@ type Exec struct {
 	pruneMemo  map[*Term]bool
 	Pruned     int
 	skipWrapped bool
+	entrySnap  *State
+	entryWorld int
+	invokeSeq  int
+	exploring  int
 }
 
 func NewExec(pr *Program) *Exec {
